@@ -36,6 +36,9 @@ SPECIAL = ["Junk", "Archive", "Sent Messages", "Drafts", "Deleted Messages"]
 PATTERNS = ["*", "%", "a%", "a*", "%/%", "a/%", "a/*", "*b", "%b", "a/b", "a", "INBOX", "inbox", "InBoX", "IN%", "d%", "x+y", "q%r", "qXr", "z(1)", "%/b/%", "m/%", "*/n", "D*", "%e*"]
 
 
+RELATED = [(i, j) for i, a in enumerate(NAMES) for j, b in enumerate(NAMES) if i != j and (b.startswith(a + "/") or a.startswith(b + "/"))]
+
+
 def enc(n: str) -> bytes:
     return quote(n)
 
@@ -47,6 +50,9 @@ def strategy(tier, shard, nshards):
         st.builds(lambda b: {"op": "create", "n": b}, nm), st.builds(lambda b: {"op": "create", "n": b}, nm),
         st.builds(lambda b: {"op": "delete", "n": b}, nm), st.builds(lambda b: {"op": "delete", "n": b}, nm),
         st.builds(lambda a, b: {"op": "rename", "n": a, "d": b}, nm, nm), st.builds(lambda a, b: {"op": "rename", "n": a, "d": b}, nm, nm),
+        # renames between a name and one of its own inferiors / superiors (refused, or they move a subtree):
+        # rare among 14x14 uniform pairs, and seeded/C17 showed the refused ones matter
+        st.sampled_from(RELATED).map(lambda p: {"op": "rename", "n": p[0], "d": p[1]}),
         st.builds(lambda b, on: {"op": "sub", "n": b, "on": on}, nm, st.booleans()), st.builds(lambda b, on: {"op": "sub", "n": b, "on": True}, nm, st.booleans()),
         st.builds(lambda b: {"op": "append", "n": b}, nm),
         st.just({"op": "restart"}),
@@ -66,7 +72,7 @@ def strategy(tier, shard, nshards):
 
 def budget(tier):
     if tier == "quick":
-        return {"examples": 80, "shards": 16, "guard_s": 900}
+        return {"examples": 300, "shards": 16, "guard_s": 900}
     return {"examples": 2000, "shards": 16, "guard_s": 7200}
 
 
@@ -315,6 +321,8 @@ def execute(trace) -> CaseResult:
                             await o.cmd(b"UNSELECT")
             elif op == "rename":
                 d = ns.canon(NAMES[st_["d"] % len(NAMES)])
+                if d.startswith(n + "/") and n in ns.box:
+                    res.labels.append("rename-to-own-inferior" + ("-missing-parent" if d.rsplit("/", 1)[0] not in ns.box else ""))
                 subtree = sorted(k for k in ns.box if k == n or k.startswith(n + "/")) if n != "inbox" else []
                 snaps = {}
                 for k in subtree:
